@@ -10,6 +10,8 @@ CONSTANTS
   FileLayer = FALSE
   SilentRelease = FALSE
   ForgetsHandle = FALSE
+  MaxMigrate = 1
+  RegisterOnce = FALSE
   MaxLen = 8
 SPECIFICATION GSpec
 INVARIANTS Emit
